@@ -313,6 +313,20 @@ Proof.
   destruct r as [out| | |]; try discriminate. exists out. split; [reflexivity|]. exact Hc.
 Qed.
 
+(* the axis checker: the grid `new` built has the configured number of points, starts at the lower bound, is strictly
+   increasing and ends at the upper bound (up to the tolerance) -- the shape c14_sg_grid_is_underlying proves exactly *)
+Lemma check_axis_sound : forall tol lo hi bins (xs : list Q), Spec.check_axis tol lo hi bins xs = true ->
+  List.length xs = bins /\ incr xs /\ (1 <= List.length xs)%nat /\ nq xs 0 == lo /\
+  Qabs (lastq xs - hi) <= tol * (1 + Qabs lo + Qabs hi).
+Proof.
+  intros tol lo hi bins xs H. unfold Spec.check_axis in H.
+  apply andb_true_iff in H. destruct H as [H H3]. apply andb_true_iff in H. destruct H as [H1 H2].
+  apply Nat.eqb_eq in H1. destruct xs as [|x0 xr]; [discriminate|].
+  change (T QN) with Q in *. rewrite (last_opt_nth (x0 :: xr)) in H3 by congruence.
+  apply andb_true_iff in H3. destruct H3 as [H3 H4]. apply Qeq_bool_iff in H3. apply Qle_bool_iff in H4.
+  split; [exact H1|]. split; [exact H2|]. split; [cbn; lia|]. split; [exact H3|exact H4].
+Qed.
+
 (* the four corner values of a 2-D cell *)
 Lemma corners2 : forall (f : list (list Q)) i j,
   corners 2 [i; j] f = [t2 f i j; t2 f i (S j); t2 f (S i) j; t2 f (S i) (S j)].
